@@ -1,7 +1,12 @@
 (* P_C18 — property theorems for C18 (saving never alters a solver; loading restores an equal,
    resumable one).  Only statements, each closed by `exact <lemma of proofs/C18_persist.v>`.
    `Gen_C18.facts` is regenerated from neurodiffeq/solvers_utils.py on every run by
-   tools/props/t_C18.py; `save` / `load` of model/Persist.v are parameterised by it. *)
+   tools/props/t_C18.py; `save` / `load` of model/Persist.v are parameterised by it.
+
+   All statements are at FULL strength since the fix: commits 90081b1 (get_conditions works on a
+   copy), 02ac05f (lowest_loss saved and restored) and 446840b (BundleSolver1D.load passes
+   eq_param_index and loss_fn).  The old behaviour is kept, for the record, in
+   findings/F_C18_save.v and F_C18_load.v as statements about the facts of the old tree. *)
 From Coq Require Import String.
 From Coq Require Import List ZArith QArith Bool.
 From ND.model Require Import Persist.
@@ -12,49 +17,27 @@ Close Scope Q_scope.
 Local Open Scope nat_scope.
 
 (* ============================ saving and the solver in memory ================================
-   FULL-STRENGTH STATEMENT (refuted on the unchanged tree, known findings C18 save/...:
-   get_conditions works on condition.__dict__ itself, see findings/F_C18_save.v):
+   whether or not serialisation succeeds (ok is an oracle outcome), the solver is unchanged:
+   conditions, networks, histories, optimiser, best nets, lowest loss, loss function, equations *)
+Theorem C18_save_preserves : forall s ok, fst (save facts s ok) = s.
+Proof. exact save_preserves. Qed.
 
-   Theorem C18_save_preserves : forall s ok, fst (save facts s ok) = s.
-
-   What does hold: everything but the condition dictionaries is untouched, whether or not
-   serialisation succeeds; the dictionaries are rewritten exactly as `touched` says (a
-   `condition_type` entry is added, functions with retrievable source become that text); for
-   conditions without such functions what `enforce` reads is unchanged; a second save changes
-   nothing more; and working on a copy would make the full statement true. *)
-Theorem C18_save_preserves_partial : forall s ok,
-  let s' := fst (save facts s ok) in
-  kind s' = kind s /\ nets s' = nets s /\ opt s' = opt s /\ train_hist s' = train_hist s /\
-  valid_hist s' = valid_hist s /\ lowest s' = lowest s /\ best s' = best s /\ loss_id s' = loss_id s /\
-  n_params s' = n_params s /\ eqs s' = eqs s /\
-  conds s' = map touched (conds s) /\
-  (Forall plain_cond (conds s) -> map cond_sem (conds s') = map cond_sem (conds s)).
-Proof. exact save_keeps_everything_but_conditions. Qed.
-
-Theorem C18_save_idempotent_partial : forall s ok ok',
+Theorem C18_save_idempotent : forall s ok ok',
   fst (save facts (fst (save facts s ok)) ok') = fst (save facts s ok).
 Proof. exact save_idempotent. Qed.
 
+(* independent of everything else in the source: working on a copy suffices *)
 Theorem C18_save_preserves_if_copy : forall sf s ok, sf_aliased sf = false -> fst (save sf s ok) = s.
 Proof. exact save_preserves_if_copy. Qed.
 
 (* ============================ loading what was saved =========================================
-   FULL-STRENGTH STATEMENT (refuted for conditions holding functions whose source inspect can
-   retrieve -- the saved condition objects are the already rewritten ones -- findings/F_C18_save.v):
-
-   Theorem C18_load_save_solutions : forall s f, snd (save facts s true) = Some f ->
-     exists l, load facts f = Some l /\ forall b, solution l b = solution s b.                  *)
-Theorem C18_load_save_solutions_partial : forall s f,
-  Forall plain_cond (conds s) ->
+   latest and best solutions: same network parameters and the SAME conditions, function-valued
+   attributes included *)
+Theorem C18_load_save_solutions : forall s f,
   snd (save facts s true) = Some f ->
-  exists l, load facts f = Some l /\ forall b, solution l b = solution s b.
-Proof. exact load_save_solutions_plain. Qed.
-
-(* latest and best network parameters come back for every solver kind and every condition *)
-Theorem C18_load_save_nets : forall s f,
-  snd (save facts s true) = Some f ->
-  exists l, load facts f = Some l /\ nets l = nets s /\ best l = best s.
-Proof. exact load_save_nets. Qed.
+  exists l, load facts f = Some l /\ nets l = nets s /\ best l = best s /\ conds l = conds s
+            /\ forall b, solution l b = solution s b.
+Proof. exact load_save_solutions. Qed.
 
 (* same kind, equal loss histories, equal global epoch, optimiser class and state *)
 Theorem C18_load_save_history : forall s f,
@@ -64,49 +47,37 @@ Theorem C18_load_save_history : forall s f,
 Proof. exact load_save_history. Qed.
 
 (* ============================ resuming =======================================================
-   FULL-STRENGTH STATEMENT (refuted: load never restores lowest_loss, findings/F_C18_load.v):
-
-   Theorem C18_resume_best : forall s f es, tracks s -> snd (save facts s true) = Some f ->
-     exists l, load facts f = Some l /\ tracks (fit l es).
-
-   What does hold: an un-interrupted solver keeps the invariant; after load the tracking refers
-   to the lowest validation loss since loading; nothing is lost if no epoch preceded the save. *)
+   an un-interrupted solver keeps "lowest_loss is a minimum of the whole validation history" ... *)
 Theorem C18_fit_tracks : forall s es, tracks s -> tracks (fit s es).
 Proof. exact fit_tracks_whole. Qed.
 
-Theorem C18_resume_best_partial : forall s f es,
-  snd (save facts s true) = Some f ->
-  exists l, load facts f = Some l /\ tracks_from (length (valid_hist s)) (fit l es).
-Proof. exact resume_best_since_load. Qed.
-
-Theorem C18_resume_best_fresh_partial : forall s f es,
-  valid_hist s = [] ->
+(* ... and so does a loaded one, for any number of further epochs with any losses *)
+Theorem C18_resume_best : forall s f es,
+  tracks s ->
   snd (save facts s true) = Some f ->
   exists l, load facts f = Some l /\ tracks (fit l es).
-Proof. exact resume_best_fresh. Qed.
+Proof. exact resume_best. Qed.
 
-(* equations and loss function survive for Solver1D / Solver2D; for BundleSolver1D only when no
-   equation parameter is routed and the loss is the default (findings/F_C18_load.v otherwise) *)
-Theorem C18_load_keeps_config_partial : forall s f,
-  kind s <> KBundle ->
+(* the loss function survives for every kind; the equations receive the same bundle parameters as
+   before (`select`: every wrapper layer picks its indices from what the layer above hands down),
+   for ANY eq_param_index; a bundle solver that was trainable stays trainable *)
+Theorem C18_load_keeps_config : forall s f,
   snd (save facts s true) = Some f ->
-  exists l, load facts f = Some l /\ loss_id l = loss_id s /\ eqs l = eqs s.
-Proof. exact load_keeps_config_nonbundle. Qed.
-
-Theorem C18_load_bundle_partial : forall s f,
-  kind s = KBundle -> eqs s = [[]] -> loss_id s = 0 ->
-  snd (save facts s true) = Some f ->
-  exists l, load facts f = Some l /\ loss_id l = 0 /\ trainable l = true.
-Proof. exact load_bundle_plain. Qed.
+  exists l, load facts f = Some l /\ loss_id l = loss_id s
+    /\ (forall (B : Type) (ps : list B), length ps = n_params s -> select (eqs l) ps = select (eqs s) ps)
+    /\ (kind s = KBundle -> n_params l = n_params s /\ trainable l = trainable s)
+    /\ (kind s <> KBundle -> eqs l = eqs s).
+Proof. exact load_keeps_config. Qed.
 
 (* ============================ any number of save / load / fit cycles =========================
-   every cycle succeeds, no history entry is lost, duplicated or altered, the global epoch is
-   the number of epochs run, the networks are those of the last epoch *)
+   every cycle succeeds; no history entry is lost, duplicated or altered; the global epoch is the
+   number of epochs run; the networks are those of the last epoch; conditions and loss function
+   are those of the start; best tracking keeps referring to the whole history *)
 Theorem C18_cycles : forall ops s,
   exists s', run_ops facts s ops = Some s'
     /\ train_hist s' = train_hist s ++ flat_map op_train ops
     /\ valid_hist s' = valid_hist s ++ flat_map op_valid ops
     /\ global_epoch s' = global_epoch s + length (flat_map op_train ops)
     /\ nets s' = fold_left op_nets ops (nets s)
-    /\ kind s' = kind s.
+    /\ kind s' = kind s /\ conds s' = conds s /\ loss_id s' = loss_id s /\ (tracks s -> tracks s').
 Proof. exact cycles. Qed.
